@@ -114,6 +114,14 @@ CHECKS = {
             "composition order, API keys in their configured location/name, and the caller's params/body unchanged.",
             "Header names differing only in case: only presence of the highest-precedence value is demanded. Plugins are the bundled ones with fixed constructor arguments.",
             "4 C17"),
+    "C11": ("model_checking", "explicit-state breadth-first search over generation histories with the real generator as transition function (state = project tree, canonicalised; fixpoint or depth bound), invariant = every generated client still imports",
+            "For each of 5 shared-core layouts (top-level, one, two and three packages deep, vendor-prefixed names) the state graph of histories gen(client, spec, force) is "
+            "explored breadth first: each transition copies the source state's project tree and runs the real generator; states are canonicalised to (client -> last spec, "
+            "exception classes in the core, registry contents) and deduplicated; quick runs to fixpoint for 2 clients, thorough to depth 4 for 3 clients x 4 specs. In every newly "
+            "reached state every client generated so far is imported in the runtime-only interpreter (every symbol it takes from the core must exist).",
+            "Canonicalisation argument: importability depends only on the canonical state because the copied runtime files are identical in every generation; imports are "
+            "checked when a canonical state is first reached.",
+            "4 C11"),
 }
 
 NOT_YET = {}
